@@ -727,6 +727,62 @@ def tag_emit(F):
     r.ob(ok, {"add_opcode_injections after the remapping loop": ok})
     if not ok:
         r.violate("%s | probes-before-remap" % fn["path"], F.loc(fn), "probe bodies are collected before their indices are remapped (records would use pre-edit indices)")
+    # the remapping the records rely on is done IN PLACE on the stored bodies (the records are cloned from them afterwards):
+    # every fix_op_id_mapping reachable from encode_internal operates on an element of the IR, never on a fresh clone
+    n_fix = 0
+    for f2 in F.fns:
+        if f2.get("body") is None:
+            continue
+        for c in walk(f2["body"]):
+            if c.get("k") == "Call" and (c.get("callee") or "").endswith("fix_op_id_mapping") and c["args"]:
+                n_fix += 1
+                root = c["args"][0]
+                while isinstance(root, dict) and root.get("k") in ("AddrOf", "Unary", "Field", "Index"):
+                    root = root.get("a") or root.get("base")
+                fresh = False
+                if isinstance(root, dict) and root.get("k") == "Path" and root.get("res", {}).get("r") == "local":
+                    for st in walk(f2["body"]):
+                        if st.get("k") == "Let" and st["pat"].get("hid") == root["res"]["hid"] and "init" in st:
+                            if any(x.get("k") == "MethodCall" and x["method"] in ("clone", "to_owned", "cloned") for x in walk(st["init"])):
+                                fresh = True
+                r.ob(not fresh, {"fix_op_id_mapping in": f2["path"], "operates_on_stored_operator": not fresh})
+                if fresh:
+                    r.violate("%s | remap on a copy" % f2["path"], F.loc(f2, c), "fix_op_id_mapping is applied to a clone of the operator: the body kept in the IR — from which the probe records are cloned — keeps pre-encoding indices, so the side-effect report disagrees with the encoded module")
+    r.count("fix_op_sites", n_fix)
+    # probe records name their function by the position the caller passes (post-re-indexing), not by the stored func_id
+    for f2 in F.fns:
+        if f2.get("body") is None:
+            continue
+        for lit in walk(f2["body"]):
+            if lit.get("k") == "Struct" and (lit.get("adt") or "").endswith("Injection") and lit.get("variant") in ("FuncProbe", "FuncLocProbe") and "rest" not in lit:
+                fs = dict((a, b) for a, b in lit["fields"] if isinstance(b, dict))
+                tv = fs.get("target_fid")
+                if tv is None:
+                    continue
+                stale = [x["name"] for x in walk(tv) if x.get("k") == "Field" and x["name"] in ("func_id", "import_fn_id")]
+                # follow one level of locals/params: a local initialised from func_id is just as stale
+                for x in walk(tv):
+                    if x.get("k") == "Path" and x.get("res", {}).get("r") == "local":
+                        for st in walk(f2["body"]):
+                            if st.get("k") == "Let" and st["pat"].get("hid") == x["res"]["hid"] and "init" in st:
+                                stale += [y["name"] for y in walk(st["init"]) if y.get("k") == "Field" and y["name"] in ("func_id", "import_fn_id")]
+                ok3 = not stale
+                r.ob(ok3, {"record": lit["variant"], "target_fid_from_position": ok3})
+                if not ok3:
+                    r.violate("%s | %s target_fid" % (f2["path"], lit["variant"]), F.loc(f2, lit), "Injection::%s.target_fid is taken from the stored `%s` (pre-encoding id): after re-indexing the record names a different function than the encoded module" % (lit["variant"], stale[0]))
+    # callers of the record builders pass a position, not a stored id
+    for f2 in F.fns:
+        if f2.get("body") is None:
+            continue
+        for c in walk(f2["body"]):
+            if c.get("k") == "MethodCall" and c["method"] in ("add_corrected_special_injections", "add_opcode_injections", "add_injections") and c["args"]:
+                a0 = c["args"][0]
+                if "u32" not in (a0.get("ty") or ""):
+                    continue
+                stale = [x["name"] for x in walk(a0) if x.get("k") == "Field" and x["name"] in ("func_id", "import_fn_id")]
+                r.ob(not stale, {"caller": f2["path"], "passes_position": not stale})
+                if stale:
+                    r.violate("%s | %s(%s)" % (f2["path"], c["method"], stale[0]), F.loc(f2, c), "%s is given the stored `%s` instead of the function's position after re-indexing" % (c["method"], stale[0]))
     # parse path: tag None
     g = mirutil.build_callgraph(F)
     roots = [f["path"] for f in F.fns if f["name"] in ("parse", "parse_internal") and (f.get("self_adt") or "").endswith("::Module")]
@@ -945,6 +1001,25 @@ def loop_scratch(F, roots=None):
                               "buffer `%s` is declared outside the loop, filled and handed over inside it, but not emptied at the top of every iteration: the items of earlier iterations are handed over again with each later one" % name)
         if touched:
             r.analysed.append(fn["path"])
+    # `v.resize(n, x)` sets the TOTAL length: inside a loop that is meant to append a run per iteration it truncates or
+    # stops growing the vector (a run-length expansion written with resize reports only the longest prefix)
+    for fn in F.fns:
+        if fn.get("body") is None or (fn.get("impl_trait") or "").startswith(("std::", "core::")):
+            continue
+        for m in walk(fn["body"]):
+            if not (m.get("k") == "Match" and m.get("src") == "ForLoopDesugar" and any(x.get("k") == "Loop" for x in walk(m["arms"][0]["body"]))):
+                continue
+            loop_body = m["arms"][0]["body"]
+            inner_lets = {st["pat"]["hid"] for st in walk(loop_body) if st.get("k") == "Let" and st["pat"].get("k") == "Binding"}
+            for c in walk(loop_body):
+                if c.get("k") == "MethodCall" and c["method"] in ("resize", "resize_with", "truncate") and c["args"]:
+                    rv = peel(c["recv"])
+                    if rv.get("k") == "Path" and rv.get("res", {}).get("r") == "local" and rv["res"]["hid"] not in inner_lets:
+                        uses_len = any(x.get("k") == "MethodCall" and x["method"] == "len" and peel(x["recv"]).get("res", {}).get("hid") == rv["res"]["hid"] for x in walk(c["args"][0]))
+                        r.ob(uses_len, {"fn": fn["path"], "resize_in_loop_relative_to_len": uses_len})
+                        if not uses_len:
+                            r.violate("%s | %s in loop on %s" % (fn["path"], c["method"], rv["res"].get("name")), F.loc(fn, c),
+                                      "`%s.%s(..)` inside a loop sets the vector's absolute length from a per-iteration value: elements appended by earlier iterations are cut off or no new ones are added" % (rv["res"].get("name"), c["method"]))
     r.count("loops", n_loops)
     r.count("scratch_buffers", n_scratch)
     return r
